@@ -23,6 +23,7 @@ fn coq_derr(e: &DecodeError) -> String {
         DecodeError::InvalidLength => "EInvalidLength".into(),
         DecodeError::InvalidUtf8 => "EInvalidUtf8".into(),
         DecodeError::UnknownType(t) => format!("(EUnknownType {})", coq_n(*t as u128)),
+        DecodeError::TooDeep => "ETooDeep".into(),
     }
 }
 fn err_kind(e: &DecodeError) -> &'static str {
@@ -31,6 +32,7 @@ fn err_kind(e: &DecodeError) -> &'static str {
         DecodeError::InvalidLength => "invalid-length",
         DecodeError::InvalidUtf8 => "invalid-utf8",
         DecodeError::UnknownType(_) => "unknown-type",
+        DecodeError::TooDeep => "too-deep",
     }
 }
 
@@ -264,6 +266,12 @@ fn main() {
             v = if i % 2 == 0 { PV::List(vec![v]) } else { PV::Map(BTreeMap::from([("k".to_string(), v)])) };
         }
         values.push(("value", v));
+        // exactly MAX_PROPERTY_NESTING containers: the deepest value that is accepted
+        let mut v = PV::Bool(true);
+        for i in 0..nervusdb_api::MAX_PROPERTY_NESTING {
+            v = if i % 3 == 0 { PV::Map(BTreeMap::from([("".to_string(), v)])) } else { PV::List(vec![v]) };
+        }
+        values.push(("value", v));
         values.push(("value", PV::List((0..300).map(|i| PV::Int(i)).collect())));
         values.push(("value", PV::Map((0..40).map(|i| (format!("k{:03}", i), PV::Bool(i % 2 == 0))).collect())));
     }
@@ -359,33 +367,61 @@ fn main() {
     walx::c25_wal_stream(&a, &mut r, n_wal, &mut cw, &mut rep, &mut hist, &mut distinct, &mut fails, &mut idx);
 
     // ---------- stack: nested headers of growing depth in a child process ----------
-    // the whole input stays below MAX_WAL_RECORD_LEN (1 MiB), i.e. it fits into one log record
-    let mut stack_result = json!(null);
+    // (K-C25-depth, repaired: 209000 levels fit into one 1 MiB log record and overflowed the stack)
+    let stack_result;
     {
+        let max = nervusdb_api::MAX_PROPERTY_NESTING;
         let depths: &[usize] = if a.tier == "thorough" { &[2_000, 20_000, 60_000, 120_000, 209_000] } else { &[2_000, 209_000] };
-        let mut first_dead: Option<(usize, String)> = None;
-        let mut last_ok = 0usize;
-        for &k in depths {
+        let mut dead = 0;
+        for &k in depths.iter().chain([max, max + 1].iter()) {
             let b = nested_headers(7, k, 1, &[0]);
             let out = run_child("decode", &b, &a.out);
             bump!("stream:stack");
-            if out.code == Some(0) {
-                last_ok = k;
-            } else if first_dead.is_none() {
-                first_dead = Some((k, format!("exit={:?} signal={:?} {}", out.code, out.signal, out.stderr.lines().find(|l| l.contains("overflow")).unwrap_or(""))));
+            let want = if k <= max { format!("ok depth={}", k + 1) } else { "err too-deep".to_string() };
+            if out.code != Some(0) || !out.stdout.starts_with(&want) {
+                dead += 1;
+                fails += 1;
+                rep.fail(idx, None,
+                    &format!("PropertyValue::decode of {} nested list headers ({} bytes): expected '{}', got exit={:?} signal={:?} stdout={:?} {}", k, k * 5 + 1, want,
+                        out.code, out.signal, out.stdout.lines().next().unwrap_or(""), out.stderr.lines().find(|l| l.contains("overflow")).unwrap_or("")),
+                    json!({"stream": "stack", "nested_list_headers": k, "bytes": k * 5 + 1}));
             }
         }
-        if let Some((k, how)) = &first_dead {
-            // known-finding class K-C25-depth: predicate = the input is a chain of k >= 10000 nested
-            // one-element list headers (model: depth b = k + 1) and the process died
-            let class = if *k >= 10_000 { Some("K-C25-depth") } else { None };
-            fails += 1;
-            rep.fail(idx, class,
-                &format!("PropertyValue::decode of {} nested list headers ({} bytes, fits into one WAL record) killed the process: {} (deepest survivor tried: {})", k, k * 5 + 1, how, last_ok),
-                json!({"stream": "stack", "nested_list_headers": k, "bytes": k * 5 + 1}));
-        }
-        stack_result = json!({"deepest_ok": last_ok, "first_dead": first_dead.as_ref().map(|x| x.0)});
+        stack_result = json!({"children": depths.len() + 2, "failed": dead});
         idx += 1;
+    }
+
+    // ---------- entry: values nested deeper than the decoder accepts are refused where they enter ----------
+    {
+        use nervusdb_storage::engine::GraphEngine;
+        let max = nervusdb_api::MAX_PROPERTY_NESTING;
+        let mk = |n: usize| { let mut v = PV::Int(1); for _ in 0..n { v = PV::List(vec![v]); } v };
+        for (n, accepted) in [(max, true), (max + 1, false), (max + 40, false)] {
+            bump!("stream:entry");
+            let dir = tempfile::tempdir().unwrap();
+            let (ndb, wal) = (dir.path().join("g.ndb"), dir.path().join("g.wal"));
+            let got: Result<bool, String> = catch(std::panic::AssertUnwindSafe(|| {
+                let e = GraphEngine::open(&ndb, &wal).unwrap();
+                let l = e.get_or_create_label("A").unwrap();
+                let mut tx = e.begin_write();
+                let iid = tx.create_node(1, l).unwrap();
+                tx.set_node_property(iid, "deep".into(), mk(n));
+                let committed = tx.commit().is_ok();
+                drop(e);
+                // whatever happened, the database opens again and holds the value iff the commit succeeded
+                let e = GraphEngine::open(&ndb, &wal).expect("reopen after a deep value");
+                use nervusdb_api::{GraphSnapshot, GraphStore};
+                let s = e.snapshot();
+                let there = s.nodes().any(|i| s.node_property(i, "deep").map(|v| pv_same(&v, &mk(n))).unwrap_or(false));
+                assert_eq!(there, committed, "value present after reopen iff the commit succeeded");
+                committed
+            }));
+            if got != Ok(accepted) {
+                fails += 1;
+                rep.fail(idx, None, &format!("a property value with {} nested lists: commit accepted = {:?}, expected {}", n, got, accepted), json!({"stream": "entry", "nesting": n}));
+            }
+            idx += 1;
+        }
     }
 
     cw.flush();
